@@ -579,7 +579,7 @@ class DirectedGenerator(instances.SatisfyingGenerator):
         super().__init__(pm, rng, **kwargs)
         self.rec = rec
         self.tries_instance = 30
-        self.work_budget = 400
+        self.work_budget = 1500
         self.max_list = 7
         self._single: Dict[str, Dict[str, List[Any]]] = {}
         self._pools: Dict[str, Dict[str, List[Any]]] = {}
@@ -626,6 +626,12 @@ class DirectedGenerator(instances.SatisfyingGenerator):
             if s is None:
                 continue
             if ok(s):
+                if s and rng.random() < 0.15:
+                    # probe the UTF-16 convention: an astral character wherever Python admits one
+                    k = rng.randrange(len(s))
+                    astral = s[:k] + rng.choice("\U0001F600\U00010000\U0010FFFF") + s[k + 1:]
+                    if ok(astral):
+                        return astral
                 return s
             # repair the length by repeating / cutting inside the string
             if len(s) > target:
@@ -717,7 +723,13 @@ class DirectedGenerator(instances.SatisfyingGenerator):
         pm = self.pm
         t = prop.type
         if t.kind == "optional":
-            if rng.random() < 0.35 or not self._can_build(t.inner, depth):
+            inner_t = t.inner
+            holds_objects = (
+                (inner_t.kind == "atomic" and pm.is_class(inner_t.name))
+                or (inner_t.kind == "list" and inner_t.inner.kind == "atomic" and pm.is_class(inner_t.inner.name))
+            )
+            p_none = 0.35 if not holds_objects else (0.4, 0.6, 0.85)[min(depth, 2)]
+            if rng.random() < p_none or not self._can_build(t.inner, depth):
                 return None
             t = t.inner
         kind = self.rec.value_kind(t)
@@ -742,7 +754,9 @@ class DirectedGenerator(instances.SatisfyingGenerator):
         # list
         if not self._can_build(t.inner, depth):
             return []
-        n = self.pick_len(lo_v, hi_v, self.max_list if depth < self.max_depth else 2)
+        of_objects = t.inner.kind == "atomic" and pm.is_class(t.inner.name)
+        cap = (3, 2, 1)[min(depth, 2)] if of_objects else self.max_list
+        n = self.pick_len(lo_v, hi_v, cap)
         if lo_v is not None and n < lo_v:
             raise instances.Unsatisfied(f"list {cls}.{prop.name} needs {lo_v} items")
         return [self.item_value(cls, prop, t, depth) for _ in range(n)]
@@ -882,6 +896,11 @@ def make_validator_class():
         try:
             matched = utf16_search(patrn, instance)
             record_pattern_sample(patrn, instance)
+            # near misses, so that the node leg compares both polarities
+            k = len(instance) // 2
+            for variant in (instance[:-1], instance + " ", instance[:k] + "\U0001F600" + instance[k:],
+                            instance[:k] + "\u00e9" + instance[k + 1:]):
+                record_pattern_sample(patrn, variant)
         except re.error as err:
             yield ValidationError(f"pattern {patrn!r} does not compile: {err}")
             return
@@ -1279,7 +1298,7 @@ MISTYPES: Dict[str, List[Tuple[str, Any]]] = {
 
 # ======================================================================= pipeline shared by C11 / C12
 PATTERN_SAMPLES: Dict[Tuple[str, str], bool] = {}
-MAX_PATTERN_SAMPLES = 400
+MAX_PATTERN_SAMPLES = 800
 
 
 def record_pattern_sample(pattern: str, text: str) -> None:
@@ -1507,7 +1526,7 @@ def classify_rejection(op: Opened, inst: Inst, doc: Any, err: Any) -> Tuple[str,
             if bound is not None and bound[0] == err.validator_value:
                 detail["byte_length"] = len(hit.value)
                 detail["base64_length"] = b64len(len(hit.value))
-                return f"{prefix}/{keyword}/bytes-length-on-base64-text", detail
+                return f"{prefix}/bytes-length-on-base64-text/{keyword}", detail
         if hit.kind == "value":
             for r in op.rec.misread_candidates(cls, prop):
                 if r.kind != kind or hit.owner.props.get(r.guard[1]) is not None:
@@ -1518,7 +1537,7 @@ def classify_rejection(op: Opened, inst: Inst, doc: Any, err: Any) -> Tuple[str,
                     explains = r.value == err.validator_value
                 if explains:
                     detail["invariant"] = r.inv.body_src
-                    return f"{prefix}/{keyword}/{value_kind}/guard-on-other-property/{r.guard[0]}", detail
+                    return f"{prefix}/guard-on-other-property/{r.guard[0]}/{keyword}/{value_kind}", detail
         if kind == "pattern" and isinstance(hit.value, str) and has_astral(hit.value):
             detail["patterns"] = [r.value[1] for r, _ in pats]
             if any(pattern_has_any_or_complement(r.value[1]) for r, _ in pats):
